@@ -1290,6 +1290,12 @@ func runC21(rt tb, rec *evi.Recorder, cs *c21Case, pc, ps rawpeer.Plan) {
 		deadline := time.Now().Add(stallBound)
 		for j := 0; j < n2 && time.Now().Before(deadline) && !srv2.closed && !srv2.done; {
 			srv2.pump(true, 5*time.Millisecond)
+			if len(srv2.queue) > 0 && srv2.queue[0] == 'F' {
+				// the concurrent GetCurrentTip of this case arrived in the second conversation
+				srv2.answerF()
+				_ = srv2.flush()
+				continue
+			}
 			if srv2.reqs > srv2.sent {
 				if err := srv2.reply(base + j); err != nil {
 					break
